@@ -68,17 +68,75 @@ fn rtpmap_of(kind: &str, pt: u64, codec: &str) -> (String, Option<String>) {
 
 /// `extras`: "none" | "sip" | "browser" - lines real peers send that the stack does not interpret for the answer
 /// (bandwidth, ptime, tool, msid, ssrc-group, candidates ...); they are there for the parse/print round trip.
-fn render(desc: &Value, mode: &str, version: u64, extras: &str) -> String {
+/// `form` (TLC's "line form" record, may be null): how the same abstract description is spelled - session name,
+/// o= username, optional session-level c=/b=/i=, value-less attributes, values with ':' '=' ';', blanks, line ends.
+fn render(desc: &Value, mode: &str, version: u64, extras: &str, form: &Value) -> String {
+    let fs = |k: &str, d: &'static str| form[k].as_str().map(|s| s.to_string()).unwrap_or_else(|| d.to_string());
+    let fb = |k: &str| form[k].as_bool().unwrap_or(false);
+    let (sname, ouser, sess) = (fs("sname", "dash"), fs("ouser", "dash"), fs("sess", "default"));
+    let (flags, tricky, blanks, eol) = (fb("flags"), fb("tricky"), fb("blanks"), fs("eol", "crlf"));
+    // session-level c=: the SIP modes have it by default; the form can move it to the media level or add it in WebRtc
+    let session_c = match sess.as_str() {
+        "c" | "all" => true,
+        "none" | "bi" => false,
+        _ => mode != "WebRtc",
+    };
+    let text = render_crlf(desc, mode, version, extras, &sname, &ouser, session_c, sess == "bi" || sess == "all", flags, tricky);
+    let mut lines: Vec<String> = text.split("\r\n").filter(|l| !l.is_empty()).map(|l| l.to_string()).collect();
+    if blanks {
+        for l in lines.iter_mut() {
+            if l.starts_with("m=") || l.starts_with("a=rtpmap") || l.starts_with("t=") || l.starts_with("a=mid") {
+                l.push(' ');
+            }
+        }
+        // a value with leading blanks (kept by the parser) after the t= line
+        let at = lines.iter().position(|l| l.starts_with("t=")).map(|i| i + 1).unwrap_or(lines.len());
+        lines.insert(at, "a=x-lead:  two leading blanks".to_string());
+    }
+    let sep = if eol == "lf" { "\n" } else { "\r\n" };
+    let mut out = lines.join(sep);
+    out.push_str(sep);
+    out
+}
+
+#[allow(clippy::too_many_arguments)]
+fn render_crlf(
+    desc: &Value,
+    mode: &str,
+    version: u64,
+    extras: &str,
+    sname: &str,
+    ouser: &str,
+    session_c: bool,
+    session_bi: bool,
+    flags: bool,
+    tricky: bool,
+) -> String {
     let secs = desc["secs"].as_array().unwrap();
     let mut s = String::new();
     s.push_str("v=0\r\n");
-    s.push_str(&format!("o=- 4611731400430051336 {version} IN IP4 127.0.0.1\r\n"));
-    s.push_str(if extras == "sip" { "s=SIP Call\r\n" } else { "s=-\r\n" });
+    s.push_str(&format!(
+        "o={} 4611731400430051336 {version} IN IP4 127.0.0.1\r\n",
+        if ouser == "name" { "alice" } else { "-" }
+    ));
+    s.push_str(match (sname, extras) {
+        ("space", _) => "s= \r\n",
+        ("empty", _) => "s=\r\n",
+        ("words", _) => "s=x y\r\n",
+        (_, "sip") => "s=SIP Call\r\n",
+        _ => "s=-\r\n",
+    });
+    if session_bi {
+        s.push_str("i=session info: a=b;c\r\n");
+    }
     if extras == "sip" {
         s.push_str("i=A session with extras\r\n");
     }
-    if mode != "WebRtc" {
-        s.push_str("c=IN IP4 127.0.0.1\r\n");
+    if session_c {
+        s.push_str(if mode == "WebRtc" { "c=IN IP4 0.0.0.0\r\n" } else { "c=IN IP4 127.0.0.1\r\n" });
+    }
+    if session_bi {
+        s.push_str("b=CT:512\r\n");
     }
     if extras == "sip" {
         s.push_str("b=AS:256\r\n");
@@ -87,8 +145,14 @@ fn render(desc: &Value, mode: &str, version: u64, extras: &str) -> String {
     if extras == "sip" {
         s.push_str("a=tool:verif 1.0\r\n");
     }
-    if extras == "browser" {
+    if extras == "browser" || flags {
         s.push_str("a=extmap-allow-mixed\r\n");
+    }
+    if flags {
+        s.push_str("a=ice-lite\r\n");
+    }
+    if tricky {
+        s.push_str("a=x-verif:k=v;w:z=1\r\n");
     }
     let bundle: Vec<&str> = desc["bundle"].as_array().unwrap().iter().map(|m| m.as_str().unwrap()).collect();
     if !bundle.is_empty() {
@@ -124,8 +188,14 @@ fn render(desc: &Value, mode: &str, version: u64, extras: &str) -> String {
         if extras == "sip" && rtp {
             s.push_str("b=TIAS:64000\r\n");
         }
+        if mode != "WebRtc" && !session_c {
+            s.push_str("c=IN IP4 127.0.0.1\r\n");
+        }
         if mode == "WebRtc" {
             s.push_str("c=IN IP4 0.0.0.0\r\n");
+            if tricky {
+                s.push_str(&format!("a=candidate:2 1 udp 2130706175 fe80::1 {} typ host generation 0\r\n", 46000 + i));
+            }
             if extras == "browser" {
                 s.push_str("a=rtcp:9 IN IP4 0.0.0.0\r\n");
                 s.push_str(&format!("a=candidate:1 1 udp 2130706431 127.0.0.1 {} typ host\r\n", 45000 + i));
@@ -179,6 +249,12 @@ fn render(desc: &Value, mode: &str, version: u64, extras: &str) -> String {
             }
             if extras == "sip" {
                 s.push_str("a=ptime:20\r\na=maxptime:150\r\n");
+            }
+            if flags && extras != "browser" {
+                s.push_str("a=rtcp-rsize\r\n");
+            }
+            if tricky {
+                s.push_str(&format!("a=ssrc:{} msid:stream:{i} track={i};x\r\n", 7000 + i));
             }
             if extras == "browser" {
                 s.push_str("a=rtcp-rsize\r\n");
@@ -333,7 +409,24 @@ fn roundtrip(d: &SessionDescription) -> String {
                 "reordered".into()
             } else {
                 let (a, b) = (canon(d), canon(&back));
+                // field by field, session-level fields first
                 let mut what = String::from("session");
+                if a.session != b.session {
+                    let (x, y) = (&a.session, &b.session);
+                    what = if x.name != y.name {
+                        format!("session name {:?} -> {:?}", x.name, y.name)
+                    } else if x.origin != y.origin {
+                        format!("origin {:?} -> {:?}", x.origin, y.origin)
+                    } else if x.connection != y.connection {
+                        format!("session connection {:?} -> {:?}", x.connection, y.connection)
+                    } else if x.timing != y.timing || x.version != y.version {
+                        "session version/timing".to_string()
+                    } else {
+                        let xa: Vec<_> = x.attributes.iter().filter(|t| !y.attributes.contains(t)).collect();
+                        let ya: Vec<_> = y.attributes.iter().filter(|t| !x.attributes.contains(t)).collect();
+                        format!("session attributes {:?} -> {:?}", xa, ya)
+                    };
+                }
                 if a.session == b.session {
                     what = "section count".into();
                     for (i, (x, y)) in a.media_sections.iter().zip(b.media_sections.iter()).enumerate() {
@@ -484,7 +577,7 @@ async fn answer_to(pc: &PeerConnection, text: &str, rts: &mut Vec<Value>, what: 
 
 /// "swapped" previous negotiation: the local side offers (one transceiver / data channel per section of `prev`),
 /// the peer's answer is `prev` rendered as an answer. Every description parsed from the peer is round-tripped.
-async fn swapped_previous(pc: &PeerConnection, prev: &Value, mode: &str, extras: &str, rts: &mut Vec<Value>) -> Result<(), Value> {
+async fn swapped_previous(pc: &PeerConnection, prev: &Value, mode: &str, extras: &str, form: &Value, rts: &mut Vec<Value>) -> Result<(), Value> {
     for sec in prev["secs"].as_array().unwrap() {
         match sec["kind"].as_str().unwrap() {
             "audio" => {
@@ -511,7 +604,7 @@ async fn swapped_previous(pc: &PeerConnection, prev: &Value, mode: &str, extras:
     if let Err(e) = pc.set_local_description(offer) {
         return Err(json!({"stage": "swapped set_local", "err": e.to_string()}));
     }
-    let text = render(prev, mode, 2, extras);
+    let text = render(prev, mode, 2, extras, form);
     let parsed = match catch(|| SessionDescription::parse(SdpType::Answer, &text)) {
         Ok(Ok(d)) => d,
         Ok(Err(e)) => return Err(json!({"stage": "swapped parse answer", "err": e.to_string()})),
@@ -537,19 +630,19 @@ async fn run_one(i: usize, rec: Value) -> Value {
     let extras = rec["extras"].as_str().unwrap_or("none");
     let pc = make_pc(cfg);
     let mut rts = Vec::new();
-    let mut out = json!({"i": i, "offer": rec["offer"], "prev": rec["prev"], "extras": extras, "cfg": cfg, "accepted": false, "answer": {"secs": [], "bundle": []},
+    let mut out = json!({"i": i, "offer": rec["offer"], "prev": rec["prev"], "extras": extras, "form": rec["form"], "cfg": cfg, "accepted": false, "answer": {"secs": [], "bundle": []},
                          "roundtrip_ok": true, "render_ok": true});
     let mut version = 2;
     if cfg["neg"] == "swapped" {
         version += 1;
-        if let Err(e) = swapped_previous(&pc, &rec["prev"], mode, extras, &mut rts).await {
+        if let Err(e) = swapped_previous(&pc, &rec["prev"], mode, extras, &rec["form"], &mut rts).await {
             out["not_accepted"] = json!({"previous": e});
             pc.close();
             return out;
         }
     }
     if cfg["neg"] == "subsequent" || cfg["neg"] == "grow" {
-        let text = render(&rec["prev"], mode, version, extras);
+        let text = render(&rec["prev"], mode, version, extras, &rec["form"]);
         version += 1;
         match answer_to(&pc, &text, &mut rts, "previous").await {
             Ok(a) => {
@@ -566,7 +659,7 @@ async fn run_one(i: usize, rec: Value) -> Value {
             }
         }
     }
-    let text = render(&rec["offer"], mode, version, extras);
+    let text = render(&rec["offer"], mode, version, extras, &rec["form"]);
     // the renderer and the abstraction must be inverse on the offer, or the verdict would be about the harness
     if let Ok(d) = SessionDescription::parse(SdpType::Offer, &text) {
         let back = abstract_desc(&d);
